@@ -35,3 +35,5 @@ meta = dict(id=sid, breaks_property=prop, needs_to_manifest=notes.strip(),
 json.dump(meta, open(os.path.join(out, "meta.json"), "w"), indent=1)
 print("detected" if meta["detected"] else "MISSED", "|", vline, "|", summary)
 PY
+# leave lean/Generated as regenerated from the clean tree
+/venv/bin/python -c "import sys; sys.path.insert(0,'/verif'); sys.dont_write_bytecode=True; from harness.core import regenerate; regenerate()" >/dev/null
